@@ -48,6 +48,9 @@ POSITIONS = {
     "root_ref": ("", "let x: {T} = {V}; let v = &x;", "v", "{P}"),
     "root_field_expr": ("#[derive(Debug, Clone)] struct W {{ f: {T}, g: i32 }}", "let w = W {{ f: {V}, g: 1 }};", "w.f", "{P}"),
     "root_call": ("fn mk() -> {T} {{ {V} }}", "", "mk()", "{P}"),
+    # the asserted expression is a binary expression (lower precedence than the `&`, `.` and `as` the templates put around it);
+    # only for the targets that have such an identity (LOWPREC)
+    "root_lowprec": ("", "let x: {T} = {V};", "<LOWPREC>", "{P}"),
     # the asserted expression reaches the macro as a `$v:expr` fragment of a caller's macro_rules! helper (a None-delimited group)
     # (the pattern is written in the helper: pattern tokens forwarded from another hygiene context cannot see the expansion's
     # own locals at all, observation O17)
@@ -84,6 +87,7 @@ POSITIONS = {
 }
 
 REFERENCE = "field"
+LOWPREC = {"i32": "x + 0", "string": "x.clone() + \"\""}
 
 
 def program(target, pos, pattern, reuse=False):
@@ -92,11 +96,13 @@ def program(target, pos, pattern, reuse=False):
     decl = decl.format(T=ty, V=val)
     setup = setup.format(T=ty, V=val)
     pat = wrap.format(P=pattern)
+    if root == "<LOWPREC>":
+        root = LOWPREC[target]
     after = ""
     if reuse:
         # the asserted expression must still be fully usable: move it (or, for place
         # expressions that cannot be moved, borrow it) after the assertion
-        after = " let _still_usable = &%s; let _debug = format!(\"{:?}\", _still_usable);" % root
+        after = " let _still_usable = &(%s); let _debug = format!(\"{:?}\", _still_usable);" % root
         if root == "v" and not setup.strip().endswith("&x;"):
             after += " let _moved = v;"
     if pos.endswith("_via_macro"):
@@ -116,6 +122,8 @@ def cells(targets=None, positions=None, mismatches=True):
         for fname, pm, pn in forms:
             for pos in POSITIONS:
                 if positions and pos not in positions:
+                    continue
+                if pos == "root_lowprec" and tname not in LOWPREC:
                     continue
                 if pm is not None:
                     yield (tname, fname, pos, pm, True)
